@@ -63,6 +63,13 @@ class RefCheck:
                 continue
             w = json.load(open(os.path.join(common.ROOT, f["witness"])))
             if "sexp" not in w:
+                # a witness given as program text with the output the property demands
+                if "program" in w and "expected_stdout" in w:
+                    o = common.run_programs(self.exe, [w["program"]], timeout=10)[0]
+                    self.evals += 1
+                    if o[0] != w["expected_stdout"] or o[1] != "ok":
+                        self.v.known_finding(f["what"])
+                        self.reported_ids.add(f["id"])
                 continue
             res, bad, _ = refrun.run_suite(self.exe, [w["sexp"]])
             self.evals += 1
@@ -72,14 +79,16 @@ class RefCheck:
             elif res and refrun.expected_class(res[0].status) is None:
                 common.log("witness %s: model says %s (not comparable)" % (f["id"], res[0].status))
 
-    def suite(self, name, sexps, nontrivial=None, known_cell=None, max_report=3, shrink=True, timeout=5):
+    def suite(self, name, sexps, nontrivial=None, known_cell=None, max_report=3, shrink=True, timeout=5, source_transform=None):
         """run a list of programs; report property-level mismatches.
         nontrivial: fn(RefResult) -> hashable key or None.  known_cell: fn(RefResult) -> finding id or None,
         for finite matrices whose failing cells are listed findings."""
         sexps = list(sexps)
         if not sexps:
             return
-        res, bad, disc = refrun.run_suite(self.exe, sexps, gates=self.gates, timeout=timeout)
+        res, bad, disc = refrun.run_suite(self.exe, sexps, gates=self.gates, timeout=timeout, source_transform=source_transform)
+        if source_transform:
+            shrink = False      # the shrinker works on the S-expression, the rewriting on the rendered text
         self.evals += len(sexps) - disc
         self.discarded += disc
         self.dist[name] = self.dist.get(name, 0) + len(sexps)
